@@ -618,9 +618,13 @@ class Runner:
             gram_self = exact_gram(ref, ref)
             if gram_self.shape[0] == gram_self.shape[1] and np.linalg.cond(gram_self) < 1e8:
                 gfd = self.api.GridFunction(gf.space, projections=gram_self @ c, dual_space=gf.space)
-                for (lo, ko, so, _) in others:
+                # a second dual space that certainly differs from the function's own: whole-grid DP0 (scalar) / RWG (vector)
+                extra_dual = self.api.function_space(g, "DP", 0) if ref.codim == 1 else self.api.function_space(
+                    g, "RWG", 0, include_boundary_dofs=True)
+                cands = [(getattr(extra_dual, "identifier", "dual"), getattr(extra_dual, "identifier", "dual"), extra_dual, None)]
+                for (lo, ko, so, _) in cands + list(others):
                     ro = self.ref(so)
-                    if so is gf.space or ro.codim != ref.codim or not set(ro.support) & set(ref.support):
+                    if so is gf.space or so == gf.space or ro.codim != ref.codim or not set(ro.support) & set(ref.support):
                         continue
                     exp = exact_gram(ro, ref) @ c
                     if float(np.abs(exp).max()) == 0:
